@@ -46,6 +46,7 @@ struct jsonpr_ctx {
 
     uint16_t level_printed;     /* level where some data were already printed */
     struct ly_set open;         /* currently open array(s) */
+    const struct lyd_node *first;           /**< first printed node, its preceding siblings are not printed */
     const struct lyd_node *first_leaflist;  /**< first printed leaf-list instance, used when printing its metadata/attributes */
 };
 
@@ -778,6 +779,19 @@ json_print_any(struct jsonpr_ctx *pctx, const struct lyd_node *node)
 }
 
 /**
+ * @brief Check whether a node is the only node being printed, its siblings are not printed.
+ *
+ * @param[in] pctx JSON printer context.
+ * @param[in] node Node to check.
+ * @return Whether the siblings of the node are ignored.
+ */
+static ly_bool
+json_print_is_single_root(struct jsonpr_ctx *pctx, const struct lyd_node *node)
+{
+    return (pctx->root == node) && !(pctx->options & LYD_PRINT_WITHSIBLINGS);
+}
+
+/**
  * @brief Check whether a node is the last printed instance of a (leaf-)list.
  *
  * @param[in] ctx JSON printer context.
@@ -792,7 +806,7 @@ json_print_array_is_last_inst(struct jsonpr_ctx *pctx, const struct lyd_node *no
         return 0;
     }
 
-    if ((pctx->root == node) && !(pctx->options & LYD_PRINT_WITHSIBLINGS)) {
+    if (json_print_is_single_root(pctx, node)) {
         /* the only printed instance */
         return 1;
     }
@@ -872,6 +886,7 @@ json_print_meta_attr_leaflist(struct jsonpr_ctx *pctx)
     const struct lyd_node *prev, *node, *iter;
     const struct lys_module *wdmod = NULL, *iter_wdmod;
     const struct lyd_node_opaq *opaq = NULL;
+    ly_bool single;
 
     assert(pctx->first_leaflist);
 
@@ -880,10 +895,13 @@ json_print_meta_attr_leaflist(struct jsonpr_ctx *pctx)
         wdmod = ly_ctx_get_module_implemented(pctx->ctx, "ietf-netconf-with-defaults");
     }
 
-    /* node is the first instance of the leaf-list */
-    for (node = pctx->first_leaflist, prev = pctx->first_leaflist->prev;
-            prev->next && matching_node(node, prev);
-            node = prev, prev = node->prev) {}
+    /* node is the first printed instance of the leaf-list */
+    node = pctx->first_leaflist;
+    if (!(single = json_print_is_single_root(pctx, node))) {
+        /* the instances before the first printed node are not printed */
+        for (prev = node->prev; (node != pctx->first) && prev->next && matching_node(node, prev);
+                node = prev, prev = node->prev) {}
+    }
 
     if (node->schema) {
         LY_CHECK_RET(json_print_member(pctx, node, 1));
@@ -922,7 +940,7 @@ json_print_meta_attr_leaflist(struct jsonpr_ctx *pctx)
         }
         LEVEL_PRINTED;
 next_inst:
-        if (!matching_node(iter, iter->next)) {
+        if (single || !matching_node(iter, iter->next)) {
             break;
         }
     }
@@ -954,10 +972,11 @@ json_print_opaq(struct jsonpr_ctx *pctx, const struct lyd_node_opaq *node)
     }
 
     if (hints & (LYD_NODEHINT_LIST | LYD_NODEHINT_LEAFLIST)) {
-        if (node->prev->next && matching_node(node->prev, &node->node)) {
+        if (is_open_array(pctx, &node->node)) {
+            /* a preceding instance was printed */
             first = 0;
         }
-        if (node->next && matching_node(&node->node, node->next)) {
+        if (!json_print_is_single_root(pctx, &node->node) && node->next && matching_node(&node->node, node->next)) {
             last = 0;
         }
     }
@@ -1057,7 +1076,7 @@ json_print_node(struct jsonpr_ctx *pctx, const struct lyd_node *node)
     pctx->level_printed = pctx->level;
 
 leaflist_meta:
-    if (pctx->first_leaflist && !matching_node(node->next, pctx->first_leaflist)) {
+    if (pctx->first_leaflist && (json_print_is_single_root(pctx, node) || !matching_node(node->next, pctx->first_leaflist))) {
         json_print_meta_attr_leaflist(pctx);
         pctx->first_leaflist = NULL;
     }
@@ -1085,6 +1104,7 @@ json_print_data(struct ly_out *out, const struct lyd_node *root, uint32_t option
     pctx.level_printed = 0;
     pctx.options = options;
     pctx.ctx = LYD_CTX(root);
+    pctx.first = root;
 
     /* start */
     ly_print_(pctx.out, "{%s", delimiter);
